@@ -9,6 +9,7 @@ CONSTANTS
   MaxOps = 3
   LimitA = 1
   Gen = FALSE
+  Drain = TRUE
   SearchPostFilter = FALSE
   CacheScopeHasTenant = TRUE
   StripReserved = TRUE
